@@ -276,6 +276,36 @@ package nfa
 //@ func (*PikeVM).isBetterMatch
 //@   props C10 C02 C07
 //@   ensures result == (bestStart == -1 || candStart < bestStart || (candStart == bestStart && candEnd > bestEnd))
+// ---- PikeVM capture searches: one protocol fact within reach (C03/C07). The epsilon closure works in the scratch row
+// currSlots and copies it into the slot table for every thread it creates; a seed thread must start from "no group
+// set", so the scratch row has to be all -1 whenever a new start position is seeded (stepping a thread loads its own
+// row first). Stated as the precondition of the seeding call and checked in the two capture searches; everything else
+// about these searches (which thread wins, what the closure does) is NOT verified.
+//@ trusted func (*PikeVM).addSearchThread
+//@   requires p != nil && (forall i :: 0 <= i && i < len(p.internalState.currSlots) ==> p.internalState.currSlots[i] == -1)
+//@   modifies p.*, family E:int, family E:nfa.searchThread, family E:uint32, family H:internal/sparse.SparseSet, family E:nfa.captureFrame
+// honest frames for what the capture searches call (bodies out of reach): each may rewrite the scratch row
+//@ trusted func (*PikeVM).stepSearchThread
+//@   modifies p.*, family E:int, family E:nfa.searchThread, family E:uint32, family H:internal/sparse.SparseSet, family E:nfa.captureFrame
+//@ trusted func (*PikeVM).buildCapturesFromSlots
+//@ trusted func (SkipAhead).Find
+//@ func (*PikeVM).searchWithSlotTableCapturesUnanchored
+//@   props C03 C07
+//@   opt safety=off
+//@   opt check_requires=addSearchThread
+//@   opt frame=off
+//@   requires p != nil
+//@   modifies p.*
+//@   loop 2: invariant -1 <= rangeindex && rangeindex < rangelen && rangelen == len(p.internalState.currSlots) && (forall j :: 0 <= j && j <= rangeindex ==> p.internalState.currSlots[j] == -1)
+//@ func (*PikeVM).searchWithSlotTableCapturesAnchored
+//@   props C03 C07
+//@   opt safety=off
+//@   opt check_requires=addSearchThread
+//@   opt frame=off
+//@   requires p != nil
+//@   modifies p.*
+//@   loop 1: invariant -1 <= rangeindex && rangeindex < rangelen && rangelen == len(p.internalState.currSlots) && (forall j :: 0 <= j && j <= rangeindex ==> p.internalState.currSlots[j] == -1)
+
 // the mode flag of a PikeVM (what its searches do with it is out of reach: DESIGN 7.1)
 //@ func (*PikeVM).SetLongest
 //@   props C10 C11 C07
